@@ -14,13 +14,14 @@ func init() { Registry["C13"] = runC13 }
 
 func runC13(c *Ctx) {
 	R := c.R
+	defer c.errorCodeClosesCycle("C13.R6")
 	defer c.include("C13.S1", "C03", []string{"C03.R3"}, "every CopyData payload is delivered byte-exact and once: each accepted message replaces the window", 2)
 	R.Technique = "error-class (nil / io.EOF / other) analysis per switch arm of CopyReader.Read; emit-set and arm automata of the trace engine; format provenance"
 	R.Explanation = "Decides the abort / completion discipline of COPY-in on every path: (R1) the CopyInResponse announces the handler-requested format overall and once per declared column (grammar and count by the C02 frame rules, re-run here for 'G'; the format operands are the CopyIn parameter). " +
 		"(R2) in CopyReader.Read each message type maps to its outcome: CopyData -> nil, CopyDone -> exactly io.EOF, Flush/Sync -> no return (the loop continues), CopyFail and every other type -> a non-nil, non-EOF error; " +
 		"(R3) the COPY readers emit nothing themselves, so an aborted COPY is reported exactly once by the cycle owner (C05.R1 / C06.R1 decide that single ErrorResponse); (R4) CopyData / CopyDone / CopyFail arriving outside COPY mode produce no reply, invoke nothing and keep the connection. " +
 		"Not decided: byte-exactness of payloads beyond the exact message window (C03.R2) and what a handler does with the error."
-	R.Explanation += " (R2) also: no path from the CopyData arm leads back to the next read (every payload is delivered). (R5) the failing Execute path ends the cycle itself (ErrorResponse and ReadyForQuery) or the COPY reader does not consume Sync: deferring ReadyForQuery to a later Sync while CopyReader.Read swallows Sync loses it."
+	R.Explanation += " (R2) also: no path from the CopyData arm leads back to the next read (every payload is delivered). (R5) the failing Execute path ends the cycle itself (ErrorResponse and ReadyForQuery) or the COPY reader does not consume Sync: deferring ReadyForQuery to a later Sync while CopyReader.Read swallows Sync loses it. (R6) ErrorCode on its own sends ErrorResponse then ReadyForQuery on every path that is not a failed write (no severity- or class-dependent short cut)."
 	R.Trusted = []string{"go/types + go/ssa"}
 
 	// ---------- R1: format provenance
@@ -92,11 +93,29 @@ func runC13(c *Ctx) {
 		R.Analysed(fname(dci))
 		cci := c.P.Method("wire", "Columns", "CopyIn")
 		n := 0
-		for _, call := range callsIn(dci, calleeIs(cci)) {
+		// the announcement may be a step of its own (a private method of the writer that CopyIn calls with the format)
+		hosts := []*ssa.Function{dci}
+		for _, ci := range core.Calls(dci) {
+			if h := core.StaticCallee(ci); h != nil && h != dci && c.P.InPkg(h, "wire") && h.Blocks != nil && h.Signature.Recv() != nil && c.onlyCaller(h) == ci {
+				hosts = append(hosts, h)
+				R.Analysed(fname(h))
+			}
+		}
+		var sites []ssa.CallInstruction
+		for _, h := range hosts {
+			sites = append(sites, callsIn(h, calleeIs(cci))...)
+		}
+		for _, call := range sites {
 			n++
 			args := call.Common().Args
 			fr, isF := core.FieldOfValue(args[0])
-			R.Check(args[len(args)-1] == ssa.Value(dci.Params[1]), "C13.R1", "(*dataWriter).CopyIn:requested-format", c.at(call), "the result writer forwards the handler's format to the CopyInResponse", "last argument is the method's format parameter", "CopyInResponse is built from a value other than the format the handler passed (e.g. the portal's result formats)")
+			fmtArg := args[len(args)-1]
+			if prm, isP := fmtArg.(*ssa.Parameter); isP && call.Parent() != dci {
+				if a, _ := c.callerArg(prm); a != nil {
+					fmtArg = a
+				}
+			}
+			R.Check(fmtArg == ssa.Value(dci.Params[1]), "C13.R1", "(*dataWriter).CopyIn:requested-format", c.at(call), "the result writer forwards the handler's format to the CopyInResponse", "last argument is the method's format parameter", "CopyInResponse is built from a value other than the format the handler passed (e.g. the portal's result formats)")
 			R.Check(isF && fr.Is(pkWire, "dataWriter", "columns"), "C13.R1", "(*dataWriter).CopyIn:declared-columns", c.at(call), "the CopyInResponse describes the statement's declared columns", "receiver is dataWriter.columns", "CopyInResponse is built for a column set other than the writer's declared columns")
 		}
 		R.Floor("C13.R1", "Columns.CopyIn calls in dataWriter.CopyIn", n, 1)
@@ -333,4 +352,67 @@ func (r *allEventsRule) step(tc *traceClient, x *core.TSCtx, site ssa.Instructio
 }
 func (r *allEventsRule) ret(_ *traceClient, _ *core.TSCtx, _ *ssa.Return, q string, _ core.ErrK) string {
 	return q
+}
+
+// errorReportRule: ErrorCode, taken on its own, answers with ErrorResponse then ReadyForQuery on every path that does
+// not end in a failed write. The aborted COPY is reported through it, and the COPY reader has already consumed the
+// client's Sync, so nothing later supplies a ReadyForQuery the report left out.
+type errorReportRule struct {
+	c    *Ctx
+	rule string
+}
+
+func (r errorReportRule) step(tc *traceClient, x *core.TSCtx, site ssa.Instruction, q, ev string) string {
+	if strings.HasPrefix(ev, "FAIL:") || !strings.HasPrefix(ev, "M:") {
+		return q
+	}
+	switch {
+	case q == "" && ev == "M:E":
+		return "E"
+	case q == "E" && ev == "M:Z":
+		return "EZ"
+	}
+	tc.fail(r.rule, x, site, "ErrorCode:"+ev+"@"+q, "an error report is one ErrorResponse followed by one ReadyForQuery", "ErrorCode emits "+ev+" in state '"+q+"'")
+	return q
+}
+
+func (r errorReportRule) ret(tc *traceClient, x *core.TSCtx, ret *ssa.Return, q string, err core.ErrK) string {
+	if len(x.Stack) != 0 || q == "EZ" {
+		return q
+	}
+	if err == core.KNonNil {
+		if onlyConnectionEnding(r.c.errOrigins(errOperand(ret))) {
+			return q
+		}
+		tc.fail(r.rule, x, ret, "ErrorCode:return:"+retDescr(ret)+"@"+q, "an aborted COPY is answered with one ErrorResponse and one ReadyForQuery", "ErrorCode returns an error that is not a failed write before the report is complete (state '"+q+"'): the session ends and the cycle has no ReadyForQuery")
+		return q
+	}
+	tc.fail(r.rule, x, ret, "ErrorCode:return:"+retDescr(ret)+"@"+q, "an aborted COPY is answered with one ErrorResponse and one ReadyForQuery", "ErrorCode can return without error in state '"+q+"': the report lacks its ErrorResponse or ReadyForQuery, and the COPY reader has consumed the Sync that would have produced one")
+	return q
+}
+
+func (c *Ctx) errorCodeClosesCycle(rule string) {
+	R := c.R
+	ec := c.P.Func("wire", "ErrorCode")
+	if ec == nil {
+		R.Fail(rule, "anchor:ErrorCode", "-", "anchor wire.ErrorCode resolves", "function not found")
+		return
+	}
+	tc := newTraceClient(c, errorReportRule{c, rule})
+	ts := core.NewTS(c.P, tc)
+	ts.Relevant = c.reachesEvents()
+	outs := ts.Run(ec, joinState("", ""), core.TSEnv{})
+	for f := range ts.Funcs {
+		R.Analysed(fname(f))
+	}
+	for _, p := range ts.Problem {
+		R.Fail(rule, "ErrorCode:unsupported", c.atFn(ec), "analysable", p)
+	}
+	nDone := 0
+	for _, o := range outs {
+		if _, q := splitState(o.S); q == "EZ" {
+			nDone++
+		}
+	}
+	R.Check(nDone > 0 && tc.Events["M:E"] > 0 && tc.Events["M:Z"] > 0, rule, "ErrorCode:report-automaton", c.atFn(ec), "every path of ErrorCode that is not a failed write sends ErrorResponse then ReadyForQuery", sprintf("%d exit outcomes, %d complete; events %v", len(outs), nDone, tc.Events), "no path of ErrorCode completes the report (ErrorResponse, ReadyForQuery)")
 }
